@@ -499,7 +499,7 @@ class Arena:
                 p2 = subprocess.Popen([str(self.bin), str(budget_ms * 10)], stdin=subprocess.PIPE, stdout=subprocess.PIPE,
                                       stderr=subprocess.DEVNULL, preexec_fn=limits, env=penv)
                 try:
-                    out2, _ = p2.communicate(lines[start + done].encode(), timeout=budget_ms / 100 + 60)
+                    out2, _ = p2.communicate(lines[start + done].encode(), timeout=3600)   # (the budget itself is CPU time)
                 except subprocess.TimeoutExpired:
                     p2.kill()
                     out2, _ = p2.communicate()
